@@ -1,3 +1,108 @@
-import EvoModel.Model.Umeyama
+/-
+C03 — Umeyama alignment returns a proper rotation that is least-squares optimal.
+
+`numpy.linalg.svd` is not modelled. The theorems say: *every* output `(R, t, c)` that passes the
+executable certificate `Ume.umeCert 0` (Model/Umeyama.lean) for the inputs `x`, `y` is a proper
+rotation, has positive scale (exactly 1 without scale estimation) and minimises the sum of
+squared residuals over all proper rotations, translations (and scales); the driver evaluates
+`umeCert ε` (ε = 2⁻³⁰) on evo's actual output on every run. Helper lemmas: Lemmas/TraceMax.lean,
+Lemmas/Umeyama.lean (both valid over every ordered field).
+-/
+import EvoModel.Lemmas.Umeyama
 namespace Evo.C03
+open Evo Evo.Ume
+
+/-- **completing the square** (ℚ instance of `Ume.resid_decomp`):
+`Σ‖y_i − (cRx_i + t)‖² = n(σ_y² + c²σ_x² − 2c·tr(Rᵀcov)) + n‖t − (μ_y − cRμ_x)‖²` -/
+theorem resid_decomp (x y : List (V3 Rat)) (R : M3 Rat) (t : V3 Rat) (c : Rat)
+    (hlen : x.length = y.length) (hne : x ≠ []) (hR : IsOrtho R) :
+    resid x y R t c = cnt x * (var y + c^2 * var x - 2 * c * (amat x y R).trace)
+      + cnt x * V3.normSq (V3.sub t (tFormula x y R c)) :=
+  Ume.resid_decomp x y R t c hlen (cnt_pos x hne).ne' hR
+
+/-- **the core**: under the certificate, `tr(R'ᵀ·cov) ≤ tr(Rᵀ·cov)` for every proper rotation `R'` -/
+theorem traceMax_of_cert (ws : Bool) (x y : List (V3 Rat)) (R : M3 Rat) (t : V3 Rat) (c : Rat)
+    (h : umeCert 0 ws x y R t c = true) (R' : M3 Rat) (hR' : IsRot R') :
+    (amat x y R').trace ≤ (amat x y R).trace :=
+  Ume.traceMax_of_cert (cert_of_umeCert h) R' hR'
+
+/-- **proper rotation**: orthonormal with determinant `+1`, never a reflection -/
+theorem umeyama_proper (ws : Bool) (x y : List (V3 Rat)) (R : M3 Rat) (t : V3 Rat) (c : Rat)
+    (h : umeCert 0 ws x y R t c = true) :
+    R.transpose.mul R = M3.one ∧ R.det = 1 :=
+  (cert_of_umeCert h).rot
+
+/-- **positive scale, exactly 1 when scale estimation is off** -/
+theorem umeyama_scale_pos (ws : Bool) (x y : List (V3 Rat)) (R : M3 Rat) (t : V3 Rat) (c : Rat)
+    (h : umeCert 0 ws x y R t c = true) : 0 < c ∧ (ws = false → c = 1) := by
+  have hs := (cert_of_umeCert h).scale
+  cases ws with
+  | true => simp only [if_true] at hs; exact ⟨hs.2, by simp⟩
+  | false =>
+    simp only [Bool.false_eq_true, if_false] at hs
+    exact ⟨by rw [hs]; exact one_pos, fun _ => hs⟩
+
+/-- **least-squares optimal among rigid transformations** (scale estimation off) -/
+theorem umeyama_optimal_rigid (x y : List (V3 Rat)) (R : M3 Rat) (t : V3 Rat) (c : Rat)
+    (h : umeCert 0 false x y R t c = true) (hlen : x.length = y.length) (hne : x ≠ [])
+    (R' : M3 Rat) (t' : V3 Rat) (hR' : IsRot R') :
+    resid x y R t c ≤ resid x y R' t' 1 :=
+  optimal_rigid (cert_of_umeCert h) hlen hne R' t' hR'
+
+/-- **least-squares optimal among similarity transformations** (scale estimation on): every
+proper rotation `R'`, translation `t'` and scale `c' ≥ 0` -/
+theorem umeyama_optimal_sim (x y : List (V3 Rat)) (R : M3 Rat) (t : V3 Rat) (c : Rat)
+    (h : umeCert 0 true x y R t c = true) (hlen : x.length = y.length) (hne : x ≠ [])
+    (R' : M3 Rat) (t' : V3 Rat) (c' : Rat) (hR' : IsRot R') (hc' : 0 ≤ c') :
+    resid x y R t c ≤ resid x y R' t' c' :=
+  optimal_sim (cert_of_umeCert h) hlen hne R' t' c' hR' hc'
+
+/-- the same two statements over an arbitrary ordered field (ℝ in particular), from the
+certificate as a proposition -/
+theorem umeyama_optimal_field {K : Type} [Field K] [LinearOrder K] [IsStrictOrderedRing K]
+    (x y : List (V3 K)) (R : M3 K) (t : V3 K) (c : K) (hlen : x.length = y.length) (hne : x ≠ []) :
+    (Cert false x y R t c → ∀ R' t', IsRot R' → resid x y R t c ≤ resid x y R' t' 1) ∧
+    (Cert true x y R t c → ∀ R' t' c', IsRot R' → 0 ≤ c' → resid x y R t c ≤ resid x y R' t' c') :=
+  ⟨fun h R' t' hR' => optimal_rigid h hlen hne R' t' hR',
+   fun h R' t' c' hR' hc' => optimal_sim h hlen hne R' t' c' hR' hc'⟩
+
+/-- **refusal of the degenerate classes**: unequal sizes, all points of one set coincident, all
+points of one set on one coordinate axis — the model raises evo's geometry error -/
+theorem umeyama_refuses_degenerate (x y : List (V3 Rat))
+    (h : shapeMismatch x y = true ∨ allCoincident x = true ∨ allCoincident y = true
+      ∨ onOneCoordinateAxis x = true ∨ onOneCoordinateAxis y = true) :
+    umeRefuses x y = true := by
+  unfold umeRefuses
+  rcases h with h | h | h | h | h
+  · simp [h]
+  · simp [refuses_of_coincident_fst h]
+  · simp [refuses_of_coincident_snd h]
+  · simp [refuses_of_axis_fst h]
+  · simp [refuses_of_axis_snd h]
+
+/-! ### non-vacuity: concrete instances on which the hypotheses hold -/
+
+def exX : List (V3 Rat) := [⟨0, 0, 0⟩, ⟨1, 0, 0⟩, ⟨0, 2, 0⟩, ⟨0, 0, 3⟩, ⟨1, 1, 1⟩]
+/-- rotation by 90° about z -/
+def exR : M3 Rat := ⟨0, -1, 0, 1, 0, 0, 0, 0, 1⟩
+/-- `y = 2·R·x + (1, 2, 3)`, the last point disturbed -/
+def exY : List (V3 Rat) := [⟨1, 2, 3⟩, ⟨1, 4, 3⟩, ⟨-3, 2, 3⟩, ⟨1, 2, 9⟩, ⟨-1, 4, 6⟩]
+/-- an octahedron and its mirror image (reflection in the xy-plane): the optimal orthogonal map is improper -/
+def exO : List (V3 Rat) := [⟨3, 0, 0⟩, ⟨-3, 0, 0⟩, ⟨0, 2, 0⟩, ⟨0, -2, 0⟩, ⟨0, 0, 1⟩, ⟨0, 0, -1⟩]
+def exM : List (V3 Rat) := [⟨3, 0, 0⟩, ⟨-3, 0, 0⟩, ⟨0, 2, 0⟩, ⟨0, -2, 0⟩, ⟨0, 0, -1⟩, ⟨0, 0, 1⟩]
+
+/-- noise-free similarity data: the generating transformation passes the certificate -/
+example : umeCert 0 true exX (exX.map (simApply exR ⟨1, 2, 3⟩ 2)) exR ⟨1, 2, 3⟩ 2 = true := by decide +kernel
+example : umeCert 0 false exX (exX.map (simApply exR ⟨1, 2, 3⟩ 1)) exR ⟨1, 2, 3⟩ 1 = true := by decide +kernel
+/-- mirrored data: the certified optimum is a proper rotation (here the identity), not the mirror -/
+example : umeCert 0 false exO exM M3.one ⟨0, 0, 0⟩ 1 = true := by decide +kernel
+/-- … and the reflection itself, although it has residual 0, is rejected by the certificate -/
+example : umeCert 0 false exO exM ⟨1, 0, 0, 0, 1, 0, 0, 0, -1⟩ ⟨0, 0, 0⟩ 1 = false := by decide +kernel
+/-- data that are not a similarity image of each other (residual > 0): certified optimum with scale 15/14 -/
+example : umeCert 0 true exO [⟨3, 0, 0⟩, ⟨-3, 0, 0⟩, ⟨0, 2, 0⟩, ⟨0, -2, 0⟩, ⟨0, 0, 2⟩, ⟨0, 0, -2⟩] M3.one ⟨0, 0, 0⟩ (15/14) = true := by
+  decide +kernel
+/-- degenerate inputs are refused, generic ones are not -/
+example : umeRefuses [⟨1, 0, 0⟩, ⟨2, 0, 0⟩, ⟨5, 0, 0⟩] [⟨1, 2, 3⟩, ⟨0, 1, 0⟩, ⟨2, 2, 1⟩] = true := by decide +kernel
+example : umeRefuses exX exY = false := by decide +kernel
+
 end Evo.C03
